@@ -18,13 +18,19 @@ import (
 
 	"verif/harness/hx"
 
+	"crypto/sha256"
+	"encoding/hex"
+
 	"github.com/KiraCore/sekai/x/gov"
 	govkeeper "github.com/KiraCore/sekai/x/gov/keeper"
 	govtypes "github.com/KiraCore/sekai/x/gov/types"
+	recoverykeeper "github.com/KiraCore/sekai/x/recovery/keeper"
+	recoverytypes "github.com/KiraCore/sekai/x/recovery/types"
 	"github.com/KiraCore/sekai/x/spending"
 	spendingkeeper "github.com/KiraCore/sekai/x/spending/keeper"
 	spendingtypes "github.com/KiraCore/sekai/x/spending/types"
 	sdk "github.com/cosmos/cosmos-sdk/types"
+	minttypes "github.com/cosmos/cosmos-sdk/x/mint/types"
 )
 
 // ---------------------------------------------------------------- logging router
@@ -220,6 +226,8 @@ func (o op) coqOp() string {
 		return fmt.Sprintf("HVote %d %d %d", o.Who, o.ID, o.Opt)
 	case "end":
 		return "HEnd"
+	case "rotate":
+		return fmt.Sprintf("HRotate %d %d", o.Who, o.A)
 	}
 	switch o.Ext {
 	case "whitelist":
@@ -367,6 +375,7 @@ type bspec struct {
 	Yes     int    `json:"yes"`
 	Veto    int    `json:"veto"`
 	Dynamic bool   `json:"dynamic_voter_proposal,omitempty"` // the electorate are the owners of a spending pool
+	Rotate  int    `json:"rotate_last_voter,omitempty"`      // 1: the last voter rotates its address (x/recovery) between vote and tally; 2: and votes again afterwards
 }
 
 func around(x, lo, hi int, extra ...int) []int {
@@ -418,6 +427,13 @@ func boundarySpecs() (core, all []bspec) {
 						for _, y := range around(m/2, 0, m-v, (m+1)/2, m-v) {
 							sp := bspec{N: n, Capable: c, Quorum: q, Votes: m, Yes: y, Veto: v}
 							all = append(all, sp)
+							if n <= 11 && m >= 1 && (y == m/2 || y == (m+1)/2) {
+								for rot := 1; rot <= 2; rot++ {
+									rsp := sp
+									rsp.Rotate = rot
+									all = append(all, rsp)
+								}
+							}
 							if n <= 6 {
 								dsp := sp
 								dsp.Dynamic = true
@@ -435,6 +451,12 @@ func boundarySpecs() (core, all []bspec) {
 					}
 				}
 			}
+		}
+	}
+	// core: a tie that a duplicated yes vote would turn into a majority; the yes voter rotates its address
+	for _, m := range []int{2, 4, 6} {
+		for rot := 1; rot <= 2; rot++ {
+			core = append(core, bspec{N: m + 1, Capable: m + 1, Quorum: qs[1], Votes: m, Yes: m / 2, Veto: 0, Rotate: rot})
 		}
 	}
 	return core, all
@@ -464,6 +486,7 @@ func main() {
 	}))
 	spk = app.SpendingKeeper
 	ms := govkeeper.NewMsgServerImpl(k)
+	rms := recoverykeeper.NewMsgServerImpl(app.RecoveryKeeper)
 	// the generated histories assume that nobody but the harness actors holds a vote permission
 	for _, p := range votePerm {
 		if l := k.GetNetworkActorsByAbsoluteWhitelistPermission(base, govtypes.PermValue(p)); len(l) != 0 {
@@ -593,6 +616,16 @@ func main() {
 		nextID := int64(1)
 		var steps []string
 		voted := map[int64][]int64{}
+		lastRes := map[uint64]govtypes.VoteResult{}
+		var people []int64 // current address (actor index) of each person; a rotation renames a person
+		for i := 0; i < na; i++ {
+			people = append(people, int64(i))
+		}
+		nextFresh := int64(nRand)
+		if spec != nil {
+			nextFresh = 12
+		}
+		pick := func() int64 { return people[r.Intn(len(people))] }
 
 		doOp := func(o op) {
 			c, write := hctx.CacheContext()
@@ -624,6 +657,23 @@ func main() {
 				case "end":
 					inEnd = true
 					gov.EndBlocker(c, k)
+				case "rotate":
+					// the REAL x/recovery MsgRotateRecoveryAddress; prerequisites (auth account, recovery secret,
+					// funded fee payer) are created here so that the rotation itself is admissible
+					old, nw := addr(o.Who), addr(o.A)
+					if app.AccountKeeper.GetAccount(c, old) == nil {
+						app.AccountKeeper.SetAccount(c, app.AccountKeeper.NewAccountWithAddress(c, old))
+					}
+					h := sha256.Sum256([]byte{0xaa})
+					app.RecoveryKeeper.SetRecoveryRecord(c, recoverytypes.RecoveryRecord{Address: old.String(), Challenge: hex.EncodeToString(h[:])})
+					payer := sdk.AccAddress("feepayer____________")
+					if err = app.BankKeeper.MintCoins(c, minttypes.ModuleName, recoverykeeper.RecoveryFee); err == nil {
+						err = app.BankKeeper.SendCoinsFromModuleToAccount(c, minttypes.ModuleName, payer, recoverykeeper.RecoveryFee)
+					}
+					if err == nil {
+						_, err = rms.RotateRecoveryAddress(sdk.WrapSDKContext(c), &recoverytypes.MsgRotateRecoveryAddress{
+							FeePayer: payer.String(), Address: old.String(), Recovery: nw.String(), Proof: "aa"})
+					}
 				case "ext":
 					switch o.Ext {
 					case "whitelist", "unwhitelist":
@@ -712,7 +762,37 @@ func main() {
 				}
 			}
 			pc := propsCoq(hctx, k)
-			steps = append(steps, fmt.Sprintf("(%d, %d, %s, mkO %d %d %s %s %s %s %s)", o.T, o.H, o.coqOp(), res, newID, hx.List(aps), hx.List(evs), pc, votes, wopt))
+			// stored votes of the proposals finalised by this end block; after a rotation: of every proposal
+			var fvs []string
+			if ps, _ := k.GetProposals(hctx); res == 0 && (o.Kind == "end" || o.Kind == "rotate") {
+				sort.Slice(ps, func(i, j int) bool { return ps[i].ProposalId < ps[j].ProposalId })
+				for _, pr := range ps {
+					was, seen := lastRes[pr.ProposalId]
+					if o.Kind == "rotate" || (seen && was == govtypes.Pending || !seen) && pr.Result != govtypes.Pending {
+						fvs = append(fvs, fmt.Sprintf("(%d, %s)", pr.ProposalId, votesCoq(hctx, k, pr.ProposalId)))
+					}
+				}
+			}
+			if ps, _ := k.GetProposals(hctx); true {
+				for _, pr := range ps {
+					lastRes[pr.ProposalId] = pr.Result
+				}
+			}
+			if o.Kind == "rotate" && res == 0 {
+				for i := range people {
+					if people[i] == o.Who {
+						people[i] = o.A
+					}
+				}
+				for id := range voted {
+					for i := range voted[id] {
+						if voted[id][i] == o.Who {
+							voted[id][i] = o.A
+						}
+					}
+				}
+			}
+			steps = append(steps, fmt.Sprintf("(%d, %d, %s, mkO %d %d %s %s %s %s %s %s)", o.T, o.H, o.coqOp(), res, newID, hx.List(aps), hx.List(evs), pc, votes, hx.List(fvs), wopt))
 			o.Applied, o.Props = applied, pc
 			jh.Ops = append(jh.Ops, o)
 			dist.Inc(o.Kind + ":" + o.Res)
@@ -791,6 +871,19 @@ func main() {
 				}
 				doOp(op{Kind: "vote", T: t, H: h, Who: int64(i), ID: 1, Opt: opt})
 			}
+			if spec.Rotate > 0 {
+				last := int64(spec.Votes - 1)
+				opt := int64(3 - int64(last%2))
+				if int(last) < spec.Veto {
+					opt = 4
+				} else if int(last) >= spec.Votes-spec.Yes {
+					opt = 1
+				}
+				doOp(op{Kind: "rotate", T: t, H: h, Who: last, A: 12})
+				if spec.Rotate == 2 {
+					doOp(op{Kind: "vote", T: t, H: h, Who: 12, ID: 1, Opt: opt})
+				}
+			}
 			for b := int64(0); b < 4; b++ {
 				doOp(op{Kind: "end", T: t + b, H: h + b})
 			}
@@ -805,7 +898,7 @@ func main() {
 					x := r.Intn(100)
 					switch {
 					case x < 22 || (b == 0 && m == 0):
-						who := int64(r.Intn(na))
+						who := pick()
 						if r.Chance(8) {
 							who = int64(na)
 						}
@@ -813,7 +906,7 @@ func main() {
 					case x < 80:
 						id := int64(1)
 						if nextID == 1 {
-							doOp(op{Kind: "submit", T: t, H: h, Who: int64(r.Intn(na)), Content: randContent()})
+							doOp(op{Kind: "submit", T: t, H: h, Who: pick(), Content: randContent()})
 							continue
 						}
 						id = 1 + int64(r.Intn(int(nextID-1)))
@@ -827,7 +920,7 @@ func main() {
 							if len(open) > 0 {
 								id = open[r.Intn(len(open))]
 							} else if r.Chance(75) {
-								doOp(op{Kind: "submit", T: t, H: h, Who: int64(r.Intn(na)), Content: randContent()})
+								doOp(op{Kind: "submit", T: t, H: h, Who: pick(), Content: randContent()})
 								continue
 							}
 						}
@@ -835,7 +928,7 @@ func main() {
 							id = nextID + int64(r.Intn(2))
 						}
 						opt := int64([]int{1, 1, 1, 1, 1, 1, 1, 1, 3, 3, 2, 4, 4, 0, 7}[r.Intn(15)])
-						who := int64(r.Intn(na))
+						who := pick()
 						if r.Chance(5) {
 							who = int64(na)
 						}
@@ -846,11 +939,11 @@ func main() {
 					case x < 84:
 						doOp(op{Kind: "ext", Ext: "whitelist", T: t, H: h, Who: int64(r.Intn(nRand)), B: strconv.Itoa(int(perms[r.Intn(len(perms))]))})
 					case x < 87:
-						doOp(op{Kind: "ext", Ext: "unwhitelist", T: t, H: h, Who: int64(r.Intn(na)), B: strconv.Itoa(int(perms[r.Intn(len(perms))]))})
+						doOp(op{Kind: "ext", Ext: "unwhitelist", T: t, H: h, Who: pick(), B: strconv.Itoa(int(perms[r.Intn(len(perms))]))})
 					case x < 90:
-						doOp(op{Kind: "ext", Ext: "active", T: t, H: h, Who: int64(r.Intn(na)), Flag: r.Chance(75)})
+						doOp(op{Kind: "ext", Ext: "active", T: t, H: h, Who: pick(), Flag: r.Chance(75)})
 					case x < 93:
-						doOp(op{Kind: "ext", Ext: "veto", T: t, H: h, Who: int64(r.Intn(na)), Flag: r.Chance(50)})
+						doOp(op{Kind: "ext", Ext: "veto", T: t, H: h, Who: pick(), Flag: r.Chance(50)})
 					case x < 97:
 						pid := int64([]int{2, 3, 4, 5, 6, 5, 6}[r.Intn(7)])
 						v := ""
@@ -863,8 +956,18 @@ func main() {
 							v = strconv.Itoa(r.Intn(6))
 						}
 						doOp(op{Kind: "ext", Ext: "np", T: t, H: h, A: pid, B: v})
-					default:
+					case x < 98 || nextFresh > 12:
 						doOp(op{Kind: "ext", Ext: "dur", T: t, H: h, A: int64(1 + r.Intn(5)), B: strconv.Itoa(durVals[r.Intn(len(durVals))])})
+					default:
+						// another module rewrites the vote store: address rotation of a person (often one that voted)
+						who := pick()
+						if nextID > 1 && r.Chance(70) {
+							if vs := voted[1+int64(r.Intn(int(nextID-1)))]; len(vs) > 0 {
+								who = vs[r.Intn(len(vs))]
+							}
+						}
+						doOp(op{Kind: "rotate", T: t, H: h, Who: who, A: nextFresh})
+						nextFresh++
 					}
 				}
 				doOp(op{Kind: "end", T: t, H: h})
